@@ -128,6 +128,7 @@ type Interceptor struct {
 	RecorderFactory RecorderFactory
 	recorders       map[uint32]Recorder
 	wg              sync.WaitGroup
+	closed          bool // Close has begun (guarded by lock)
 	loggerFactory   logging.LoggerFactory
 }
 
@@ -151,11 +152,15 @@ func (r *Interceptor) getRecorder(ssrc uint32, clockRate float64) Recorder {
 		return rec
 	}
 	rec := r.RecorderFactory(ssrc, clockRate)
-	r.wg.Add(1)
-	go func() {
-		defer r.wg.Done()
-		rec.Start()
-	}()
+	if !r.closed {
+		// Close waits for the recorders that are being started: none is added to the
+		// wait group once Close has begun (a recorder made after Close is not started)
+		r.wg.Add(1)
+		go func() {
+			defer r.wg.Done()
+			rec.Start()
+		}()
+	}
 	r.recorders[ssrc] = rec
 
 	return rec
@@ -168,6 +173,7 @@ func (r *Interceptor) Close() error {
 	r.lock.Lock()
 	defer r.lock.Unlock()
 
+	r.closed = true
 	for _, r := range r.recorders {
 		r.Stop()
 	}
